@@ -46,7 +46,13 @@ def main(argv):
             tier = argv[argv.index("--tier") + 1]
         if "--seed" in argv:
             seed = int(argv[argv.index("--seed") + 1])
-        mod = importlib.import_module("mon.checks.%s" % pid.lower())
+        try:
+            mod = importlib.import_module("mon.checks.%s" % pid.lower())
+        except Exception as e:   # a broken check module is a defect of the machinery: never exit 1
+            import traceback
+            traceback.print_exc()
+            print("INCONCLUSIVE property=%s the check could not be loaded: %s: %s" % (pid, type(e).__name__, str(e)[:200]))
+            return core.EXIT_INCONCLUSIVE
         res = core.Result(pid, tier, seed)
         try:
             core.require_reference()
